@@ -1,0 +1,29 @@
+//go:build verif
+
+package argon2crypto
+
+// VerifSetSSE4 overrides the CPU feature switch and returns the previous value.
+func VerifSetSSE4(b bool) bool {
+	old := useSSE4
+	useSSE4 = b
+	return old
+}
+
+// VerifProcessBlock runs the block compression function selected by the build (assembly or portable Go).
+func VerifProcessBlock(out, in1, in2 *[128]uint64, xor bool) {
+	if xor {
+		processBlockXOR((*block)(out), (*block)(in1), (*block)(in2))
+	} else {
+		processBlock((*block)(out), (*block)(in1), (*block)(in2))
+	}
+}
+
+// VerifProcessBlockGeneric runs the portable Go implementation.
+func VerifProcessBlockGeneric(out, in1, in2 *[128]uint64, xor bool) {
+	processBlockGeneric((*block)(out), (*block)(in1), (*block)(in2), xor)
+}
+
+// VerifIndexAlpha exposes indexAlpha.
+func VerifIndexAlpha(rand uint64, lanes, segments, threads, n, slice, lane, index uint32) uint32 {
+	return indexAlpha(rand, lanes, segments, threads, n, slice, lane, index)
+}
